@@ -8,6 +8,7 @@ import (
 	"errors"
 	"fmt"
 	"math"
+	"reflect"
 	"sort"
 	"strconv"
 
@@ -38,6 +39,35 @@ type rec struct {
 	log    [][]any
 	errs   map[int]*codeErr
 	valSrc bool // sources are handed to the combinators by value, as an uncomparable struct type
+	// checks, run at the end of the case, that slices passed as variadic arguments were not modified by the callee
+	argChecks []func() bool
+}
+
+// watchArgs remembers a slice that was passed to a variadic combinator as `s...`: the callee must leave the caller's
+// slice alone (no element replaced by nil or by something else) - checked when the case is over.
+func (r *rec) watchArgs(n int, at func(i int) any) {
+	ptr := func(x any) uintptr {
+		if x == nil {
+			return 0
+		}
+		v := reflect.ValueOf(x)
+		if v.Kind() == reflect.Ptr {
+			return v.Pointer()
+		}
+		return 1
+	}
+	before := make([]uintptr, n)
+	for i := range before {
+		before[i] = ptr(at(i))
+	}
+	r.argChecks = append(r.argChecks, func() bool {
+		for i := range before {
+			if ptr(at(i)) != before[i] {
+				return false
+			}
+		}
+		return true
+	})
 }
 
 func (r *rec) err(code int) error {
@@ -274,7 +304,9 @@ func buildIterZ(d map[string]any, r *rec, off int) iterator.Iterator[int] {
 	case "flatten":
 		return iterator.Flatten(iterator.Slice(subs()))
 	case "join":
-		return iterator.Join(subs()...)
+		ss := subs()
+		r.watchArgs(len(ss), func(i int) any { return ss[i] })
+		return iterator.Join(ss...)
 	case "map":
 		f, fl := ints(d["f"]), failer(d["fl"], r, false)
 		return iterator.Map(sub(), func(x int) int { fl(); return f[0]*x + f[1] })
@@ -352,7 +384,9 @@ func buildStreamZ(d map[string]any, r *rec) stream.Stream[int] {
 	case "flatten":
 		return stream.Flatten(stream.FromIterator(iterator.Slice(subs())))
 	case "join":
-		return stream.Join(subs()...)
+		ss := subs()
+		r.watchArgs(len(ss), func(i int) any { return ss[i] })
+		return stream.Join(ss...)
 	case "map":
 		f, fl := ints(d["f"]), failer(d["fl"], r, true)
 		return stream.Map(sub(), func(_ context.Context, x int) (int, error) {
@@ -673,7 +707,13 @@ func runPipes(c *Case) *Obs {
 	if r.log == nil {
 		r.log = [][]any{}
 	}
-	o.Aux = map[string]any{"log": r.log}
+	argsIntact := true
+	for _, chk := range r.argChecks {
+		if !chk() {
+			argsIntact = false
+		}
+	}
+	o.Aux = map[string]any{"log": r.log, "args_intact": argsIntact}
 	return o
 }
 
